@@ -806,9 +806,15 @@ def collision_documents():
                     if zi.filename == "meta.xml":
                         data = re.sub(rb"(<office:meta[^>]*>)", lambda m: m.group(1) + extra.encode(), data, count=1)
                     z.writestr(zi, data)
-        except Exception:  # noqa
-            return
-        yield "collision.odt", buf.getvalue(), "odt meta:user-defined named after every field of OpenDocumentMetadata"
+            yield "collision.odt", buf.getvalue(), "odt meta:user-defined named after every field of OpenDocumentMetadata"
+        except Exception:  # noqa -- a fixture that cannot be re-packed gives no document
+            pass
+    try:      # OPF (EPUB) and OOXML core.xml property names
+        from replay import c04_collide
+        more = list(c04_collide.documents())
+    except Exception:  # noqa
+        more = []
+    yield from more
 
 
 def find_field_collisions(ob):
